@@ -29,6 +29,15 @@ CHECKS = [
          note='Trusted: vf/oracles/smiles_ref.py (reference reader + writer), RDKit; grey-zone strings are only required to '
               'return a well-formed object or raise ValueError. D2 is exhaustive for its alphabet and length bound only.',
          technique='grammar/graph-directed generation + exhaustive token enumeration + atheris coverage-guided fuzzing against a reference reader and RDKit'),
+    dict(id='C04',
+         text='Exhaustive enumeration of centre states (element x charge x radical x every multiset of <= 4 bonds of orders 1-3 '
+              'to common neighbours; 93k states quick, all 118 elements and charges -4..+4 thorough) plus generated whole '
+              'molecules: the hydrogen count is re-derived from the raw element tables by an independent interpreter, '
+              'check_valence() must report exactly the atoms without a state, RDKit must agree on every centre/atom both accept, '
+              'and formula/charge/radical/mass totals are recomputed.',
+         note='Trusted: the re-implementation of the documented table semantics (vf/oracles/valence_ref.py) and RDKit valence '
+              'model as independent judge for common chemistry; consistent edits of exotic data tuples outside RDKit are a stated limit.',
+         technique='exhaustive enumeration of centre states + property-based molecules against a table re-derivation and RDKit differential'),
     dict(id='C18',
          text='Exhaustive enumeration of the finite domain (118 elements x all tabulated isotopes + unspecified x charge '
               '-4..+4 x radical): lookups against a literal standard table, table-key consistency, mass computability, '
